@@ -42,9 +42,16 @@ Inductive ccase :=
 | CHist (id : N) (k : kcfg) (steps : list hstep)
 | CCe (id : N) (c : kcase)
 | CFresh (id : N) (ids : list bytes)       (* all fresh ids the sequential part of the run observed *)
-| CConc (id : N) (events : N) (dups : list bytes) (panics : N).
+| CConc (id : N) (events : N) (dups : list bytes) (panics : N)
      (* one shared FormatterFilter used by several goroutines at once on payloads without ID(): number of events, the ids
         that were handed out more than once (computed by the harness), Process calls that panicked *)
+| CConcSign (id : N) (events unsigned bad_hmac signed_unlisted panics : N).
+     (* one shared FormatterFilter with a signer configured throughout: some goroutines Rotate among a few harness signers
+        continuously while others Process events of a listed and of an unlisted type.  Counted by the harness: forwarded
+        listed-type events whose stored document carries no serialized / serialized_hmac; listed-type events whose
+        serialized_hmac is the result of none of the signers ever installed on the decoded serialized bytes (or whose
+        serialized does not decode / is not the document minus the signature); unlisted-type events that carry a signature;
+        panics *)
 
 Inductive kind :=
 | KErr | KFwd
@@ -242,6 +249,9 @@ Definition run_case (c : ccase) : list (N * (N * N * kind)) :=
   | CHist id k steps => map (fun m => (id, m)) (run_hist k 0 steps)
   | CCe id k => map (fun x => (id, (match x with KStoredMutated => b_later (k_obs k) | _ => 0 end, opkind k, x))) (run_ce k)
   | CFresh id ids => if forallb nonempty ids && nodupb ids then [] else [(id, (0, 4, KFresh))]
+  | CConcSign id n unsigned bad signed_unl panics =>
+      (if unsigned =? 0 then [] else [(id, (0, 5, KSer))]) ++
+      (if (bad =? 0) && (signed_unl =? 0) && (panics =? 0) then [] else [(id, (1, 5, KSer))])
   | CConc id n dups panics =>
       if (match dups with [] => true | _ => false end) && (panics =? 0) then [] else [(id, (0, 5, KFresh))]
   end.
